@@ -161,9 +161,15 @@ func (m *Machine) builtin(name string, args []Value, cc *ssa.CallCommon) Value {
 			return BV(64, 0)
 		case Array:
 			return BV(64, uint64(len(x)))
+		case *Chan:
+			return BV(64, uint64(len(x.buf)))
 		}
 	case "cap":
 		switch x := args[0].(type) {
+		case *Chan:
+			return BV(64, uint64(x.cap))
+		case NilPtr:
+			return BV(64, 0)
 		case Bytes:
 			return x.cap
 		case Slice:
